@@ -20,7 +20,7 @@ Read as flags / constants (Definition gen_... : bool / N):
     subscribe/mod.rs Option::None: register_callsite always, max_level_hint Some(OFF), enabled true
     filter/.../mod.rs Filtered::register_callsite: inner asked iff !interest.is_never(), its answer dropped, returns always
     filter/env/mod.rs EnvFilter::max_level_hint: TRACE when value filters exist, else max(statics.max_level, dynamics.max_level)
-    filter/directive.rs DirectiveSet::add raises max_level
+    filter/directive.rs DirectiveSet::add raises max_level, and recomputes it over all directives after a replacement
 
 main(repo, None) -> (text of coq/gen/Gen_summary.v, unrecognised list).  Everything fails closed: a shape that is not
 recognised puts an entry into gen_summary_unrecognised, and ProofsGen.v needs that list to be empty."""
@@ -797,9 +797,12 @@ def main(repo, _unused=None):
     flag("gen_env_hint", lambda: norm(fn_body(env_impl(), "max_level_hint", "EnvFilter")) == norm(
         "if self.dynamics.has_value_filters() { return Some(LevelFilter::TRACE); } "
         "std::cmp::max( self.statics.max_level.into(), self.dynamics.max_level.into(), )"))
-    flag("gen_directive_add_raises_max", lambda: norm(
+    flag("gen_directive_add_max_exact", lambda: norm(
         "let level = *directive.level(); if level > self.max_level { self.max_level = level; } "
-        "match self.directives.binary_search(&directive) { Ok(i) => self.directives[i] = directive, Err(i) => self.directives.insert(i, directive), }")
+        "match self.directives.binary_search(&directive) { "
+        "Ok(i) => { self.directives[i] = directive; "
+        "self.max_level = self.directives.iter().map(|d| *d.level()).max().unwrap_or(LevelFilter::OFF); } "
+        "Err(i) => self.directives.insert(i, directive), }")
         == norm(fn_body(block_after(directive, r"impl\s*<\s*T\s*:\s*Match\s*\+\s*Ord\s*>\s*DirectiveSet\s*<\s*T\s*>\s*\{", "impl DirectiveSet"), "add", "DirectiveSet")))
 
     lines = ["(** GENERATED by translators/summary_shapes.py from tracing-subscriber/src/{subscribe/layered.rs, subscribe/mod.rs,",
